@@ -42,7 +42,9 @@ def check(world, ob, timeout_ms=5000, depth=2, use_cvc5=True, cvc5_timeout_s=10,
     model = None
     # short restarts first (the sequence solver is unstable: the same query may take 0.1 s or never finish),
     # then the full budget
-    plan = [(min(timeout_ms, 2000), 0), (min(timeout_ms, 4000), 7), (timeout_ms, 13)]
+    # (the last, full-budget attempt uses the default seed again: verdicts must not depend on an unlucky seed when the
+    #  machine is busy and the short attempts were cut off)
+    plan = [(min(timeout_ms, 3000), 0), (min(timeout_ms, 6000), 7), (timeout_ms, 0), (min(timeout_ms, 15000), 13)]
     if quick_only:
         plan = plan[:1]
     for tmo, seed in plan:
